@@ -160,6 +160,12 @@ def case_s(draw) -> dict[str, Any]:
         ops = draw(st.one_of(st.just(["read"]), st.just(["read"]), st.just(["read-raw"]), st.lists(st.sampled_from(["read", "read-raw", "session", "session", "session-suppressed"]), min_size=1, max_size=3)))
         callers.append({"did": 0x1000 + i, "start": draw(st.sampled_from([0, 0, 0.05, 0.1, 0.2, 0.35, 0.5, 0.7, 1.0, 1.3, 2.0])),
                         "max_retry": draw(st.integers(0, 1)), "scripts": draw(st.lists(script_s, min_size=1, max_size=2 if len(ops) == 1 else 4)), "ops": ops})
+    if draw(st.integers(0, 5)) == 0:
+        # an undisturbed ECU: every reply comes at once or after a delay below the request timeout; nobody is cancelled
+        for c in callers:
+            c["scripts"] = [draw(st.sampled_from([["imm"], ["delay", 0.1], ["delay", 0.3], ["delay", 0.6], ["delay", 0.9]])) for _ in c["scripts"]]
+        return {"callers": callers, "tp_interval": draw(st.one_of(st.none(), st.sampled_from([0.1, 0.25, 0.4, 0.9]))),
+                "tp_script": draw(st.sampled_from([["imm"], ["delay", 0.3]])), "cancel": None, "reconnect_at": None, "stop_worker_at": None, "stop_how": "stop+ping"}
     return {"callers": callers,
             "tp_interval": draw(st.one_of(st.none(), st.sampled_from([0.1, 0.25, 0.4, 0.9]))),
             "tp_script": draw(st.sampled_from([["imm"], ["imm"], ["delay", 0.3], ["none"], ["pending", 1, 0.1]])),
